@@ -327,21 +327,22 @@ def gen_param(rng, qual, p):
     if base == "set_radians" and p == "rads":
         return rng.uniform(-10, 10)
     if base in ("velocity",):
-        return {"r": rng.uniform(0.3, 0.55), "a": rng.uniform(0.3, 40.0)}[p]
+        return {"r": rng.choice((rng.uniform(0.3, 0.55), 0.3, 0.55)),
+                "a": edge(rng, 0.3, 40.0)}[p]
     if base == "diurnal_path_horizon":
         return {"declination": g_angle(rng, -20, 20),
                 "geo_latitude": g_angle(rng, -60, 60)}[p]
     if base in ("velocity_perihelion", "velocity_aphelion", "length_orbit"):
-        return {"e": rng.uniform(0.0, 0.97), "a": rng.uniform(0.3, 40)}[p]
+        return {"e": edge(rng, 0.0, 0.97), "a": edge(rng, 0.3, 40.0)}[p]
     if base == "kepler_equation" and p == "eccentricity":
-        return rng.uniform(0.0, 0.99)
+        return edge(rng, 0.0, 0.99)
     if base == "passage_nodes_elliptic":
         if p == "e":
-            return rng.uniform(0.0, 0.95)
+            return edge(rng, 0.0, 0.95)
         if p == "a":
-            return rng.uniform(0.4, 30.0)
+            return edge(rng, 0.4, 30.0)
     if base == "passage_nodes_parabolic" and p == "q":
-        return rng.uniform(0.2, 5.0)
+        return edge(rng, 0.2, 5.0)
     if base in ("phase_angle", "illuminated_fraction", "magnitude"):
         if p == "sun_dist":
             return rng.uniform(1.5, 30.0)
@@ -437,6 +438,17 @@ def gen_param(rng, qual, p):
              "alpha2_list", "delta2_list"):
         raise KeyError(p)          # handled by overrides in gen_args
     raise KeyError(p)
+
+
+def edge(rng, lo, hi):
+    """A value of [lo, hi]: one time in four an end of the range or a value
+    within 2 % of it (where range guards and series switches sit)."""
+    r = rng.random()
+    if r < 0.75:
+        return rng.uniform(lo, hi)
+    w = 0.02 * (hi - lo)
+    return rng.choice((lo, hi, rng.uniform(lo, lo + w),
+                       rng.uniform(hi - w, hi)))
 
 
 def gen_args(rng, qual, sig):
